@@ -1,0 +1,34 @@
+//go:build verif
+
+// Contracts for the deductive verifier in /verif (gocv); comments only.
+
+package cache
+
+// C17 (capacity part): the replacement policy's charge counter never exceeds the configured capacity after any of
+// its operations, an admitted node is charged exactly its size, every eviction takes the evicted node's size off
+// the counter, and every node taken off the list has its handle released exactly once.
+//@ count (*Handle).Release
+//@ func (*lru).SetCapacity
+//@   props C17
+//@   safety off
+//@   loop 1
+//@     invariant [C17:one-release-owed-per-eviction] len(evicted) >= 0 && r.capacity == capacity
+//@   loop 2
+//@     invariant [C17:one-release-per-eviction] calls("(*Handle).Release") == old(calls("(*Handle).Release")) + rangeidx
+//@   ensures [C17:within-capacity] r.used <= r.capacity && r.capacity == capacity
+//@ func (*lru).Promote
+//@   props C17
+//@   safety off
+//@   requires r.used <= r.capacity
+//@   ensures [C17:within-capacity] r.used <= r.capacity && r.capacity == old(r.capacity)
+//@ func (*lru).Evict
+//@   props C17
+//@   safety off
+//@   ensures [C17:eviction-uncharges-the-node] (calls("(*Handle).Release") == old(calls("(*Handle).Release")) + 1) ==> (r.used == old(r.used) - n.size && n.CacheData == nil)
+//@   ensures [C17:no-eviction-no-change] (calls("(*Handle).Release") == old(calls("(*Handle).Release"))) ==> r.used == old(r.used)
+//@   ensures [C17:at-most-one-release] calls("(*Handle).Release") == old(calls("(*Handle).Release")) || calls("(*Handle).Release") == old(calls("(*Handle).Release")) + 1
+//@ func (*lru).Ban
+//@   props C17
+//@   safety off
+//@   guarantees [C17:ban-uncharges-the-node] (calls("(*Handle).Release") == old(calls("(*Handle).Release")) + 1) ==> (r.used == old(r.used) - rn.n.size && rn.ban)
+//@   ensures [C17:no-release-no-change] (calls("(*Handle).Release") == old(calls("(*Handle).Release"))) ==> r.used == old(r.used)
